@@ -223,8 +223,19 @@ func (b *backend) ABCIQueryWithOptions(ctx context.Context, path string, data tm
 	if ht == nil {
 		return nil, fmt.Errorf("no state for height %d", h)
 	}
-	if path != "/key" || !opts.Prove {
-		return nil, errors.New("harness: only proven /key queries are recorded")
+	if !opts.Prove {
+		return nil, errors.New("harness: only proven queries are served")
+	}
+	if strings.HasPrefix(path, "/store/") && strings.HasSuffix(path, "/key") && len(path) >= len("/store//key") {
+		// the two-level store: [ValueOp(key), ValueOp(store name)] up to the mini-store root, then the application's
+		// own recorded proof that the root is the value of k/ms at this height
+		store := path[len("/store/") : len(path)-len("/key")]
+		q := b.cc.msAnswer(store, string(data), h)
+		out := new(ctypes.ResultABCIQuery)
+		return out, b.serve("ABCIQuery", &ctypes.ResultABCIQuery{Response: *q}, out)
+	}
+	if path != "/key" {
+		return nil, errors.New("harness: unknown query path")
 	}
 	var q abci.ResponseQuery
 	bz, ok := ht.QueryAnsPB["k/"+string(data)]
